@@ -160,29 +160,31 @@ func (c chainBridge) InsertChain(momentums []*nom.DetailedMomentum) (int, error)
 		if err != nil {
 			return 0, err
 		}
+		// (the momentum these refusals are about is head, the first one after the `start` momentums we already have:
+		// the caller drops the peer that delivered the momentum at the returned index)
 		if target == nil {
 			// the first unknown momentum is not on top of any of our momentums (height 0 or above frontier+1)
 			log.Error("can't link momentums to insert", "reason", "no momentum at previous height")
-			return 0, errors.Errorf("can't link momentums to insert. First momentum Prev is %v but we have no momentum at that height", head.Previous())
+			return start, errors.Errorf("can't link momentums to insert. First momentum Prev is %v but we have no momentum at that height", head.Previous())
 		}
 		if target.Identifier() != head.Previous() {
 			log.Error("can't link momentums to insert", "first")
-			return 0, errors.Errorf("can't link momentums to insert. First momentum Prev is %v but he have %v", head.Previous(), target.Identifier())
+			return start, errors.Errorf("can't link momentums to insert. First momentum Prev is %v but he have %v", head.Previous(), target.Identifier())
 		}
 
 		// check that the distance allows rollback
 		if ourFrontier.Height-target.Height > 30 {
-			return 0, errors.Errorf("can't rollback to %v. Too far. Frontier is %v. Wanted to be able to insert %v", target.Identifier(), ourFrontier.Identifier(), head.Identifier())
+			return start, errors.Errorf("can't rollback to %v. Too far. Frontier is %v. Wanted to be able to insert %v", target.Identifier(), ourFrontier.Identifier(), head.Identifier())
 		}
 
 		// check that current tail is longer than frontier
 		if tail.Height <= ourFrontier.Height {
-			return 0, errors.Errorf("won't insert side-chain which is not longer")
+			return start, errors.Errorf("won't insert side-chain which is not longer")
 		}
 
 		err = c.chain.RollbackTo(insert, target.Identifier())
 		if err != nil {
-			return 0, errors.Errorf("unable to rollback to %v. Reason:%v", target.Identifier(), err)
+			return start, errors.Errorf("unable to rollback to %v. Reason:%v", target.Identifier(), err)
 		}
 	}
 
